@@ -3,6 +3,7 @@ package props
 import (
 	"fmt"
 	"go/ast"
+	"go/token"
 	"go/types"
 
 	"verif/engine/core"
@@ -232,4 +233,79 @@ func neighborOverridesPerDirection(c *core.Ctx) {
 		})
 		c.Check(n >= 1, rule, d.chain+" reset found", f.Decl.Pos(), "BGPNeighbor.load does not reset the inherited "+d.chain)
 	}
+}
+
+// stoppedPeerStaysDown: removing a neighbor (or replacing its session) goes through peer.stop().  Its FSMs fall back to
+// Idle — and Idle re-activates non-passive FSMs after the reconnect interval.  "Removed neighbors are removed" needs that
+// re-activation to depend on something stop() sets: every call that starts the FSM again from idleState.run
+// (FSM.activate) is controlled by a condition that reads state written by peer.stop().
+func stoppedPeerStaysDown(c *core.Ctx) {
+	const rule = "stopped-peer-does-not-restart-itself"
+	p := c.P
+	idle := c.MustFunc(srv + ".(idleState).run")
+	stop := c.MustFunc(srv + ".(*peer).stop")
+	act := c.MustFunc(srv + ".(*FSM).activate")
+	if idle == nil || stop == nil || act == nil {
+		return
+	}
+	c.Analysed(idle, stop)
+	written := map[*types.Var]bool{}
+	for _, a := range core.FieldAccesses(stop.Pkg, stop.Decl.Body) {
+		if a.Write {
+			written[a.Field] = true
+		}
+	}
+	// &p.field handed to sync/atomic stores
+	ast.Inspect(stop.Decl.Body, func(n ast.Node) bool {
+		if call, ok := n.(*ast.CallExpr); ok {
+			if cal := core.Callee(stop.Pkg, call); cal != nil && cal.Pkg() != nil && cal.Pkg().Path() == "sync/atomic" && len(call.Args) >= 1 {
+				if u, ok := core.Unparen(call.Args[0]).(*ast.UnaryExpr); ok && u.Op == token.AND {
+					if fv := core.FieldOf(stop.Pkg, u.X); fv != nil {
+						written[fv] = true
+					}
+				}
+			}
+		}
+		return true
+	})
+	readsStopState := func(e ast.Expr) bool {
+		hit := false
+		ast.Inspect(e, func(n ast.Node) bool {
+			switch x := n.(type) {
+			case *ast.SelectorExpr:
+				if fv := core.FieldOf(idle.Pkg, x); fv != nil && written[fv] {
+					hit = true
+				}
+			case *ast.CallExpr:
+				if g := p.FnOf(core.Callee(idle.Pkg, x)); g != nil {
+					for fv := range p.ReadsTransitive(g) {
+						if written[fv] {
+							hit = true
+						}
+					}
+				}
+			}
+			return true
+		})
+		return hit
+	}
+	n := 0
+	// calls of activate, also inside `go` statements
+	ast.Inspect(idle.Decl.Body, func(nd ast.Node) bool {
+		call, ok := nd.(*ast.CallExpr)
+		if !ok || core.Callee(idle.Pkg, call) != act.Obj {
+			return true
+		}
+		n++
+		ok2 := false
+		for _, ft := range core.CtlFactsAt(idle, call) {
+			if ft.Expr != nil && readsStopState(ft.Expr) {
+				ok2 = true
+			}
+		}
+		c.Check(ok2, rule, fmt.Sprintf("%s re-activation #%d looks at what peer.stop() set", idle.Name(), n), call.Pos(),
+			"Idle starts the FSM again after the reconnect interval without looking at anything peer.stop() writes: a neighbor removed from the configuration (DisposePeer → stop → ManualStop → Idle) reconnects by itself, and after a restart-requiring change the old peer object comes back up next to the new one")
+		return true
+	})
+	c.Check(n >= 1, rule, "re-activation calls found", idle.Decl.Pos(), "idleState.run does not call FSM.activate")
 }
